@@ -730,3 +730,247 @@ Proof.
   cbn [crc_run_multi]. rewrite update_multiple_spec. cbn [obind].
   rewrite IH by exact Hr. cbn [concat]. rewrite fold_left_app. reflexivity.
 Qed.
+
+(* ------------------------------------------------------------------------- *)
+(** ** the index returned by min_element / min_index is the FIRST position holding the extremum *)
+
+Section FirstWins.
+  Context {E : Type} (key : E -> Z) (xs : list E).
+
+  Definition scan_step (best y : nat * E) : nat * E :=
+    if (key (snd y) <? key (snd best))%Z then y else best.
+
+  Definition scan_inv (k : nat) (best : nat * E) : Prop :=
+    nth_error xs (fst best) = Some (snd best) /\ (fst best < k)%nat /\
+    (forall j y, (j < k)%nat -> nth_error xs j = Some y -> (key (snd best) <= key y)%Z) /\
+    (forall j y, (j < fst best)%nat -> nth_error xs j = Some y -> (key (snd best) < key y)%Z).
+
+  Lemma scan_inv_fold rest : forall k best,
+      scan_inv k best ->
+      (forall j, nth_error rest j = nth_error xs (k + j)) ->
+      scan_inv (k + length rest) (fold_left scan_step (combine (seq k (length rest)) rest) best).
+  Proof.
+    induction rest as [|r0 rest IH]; intros k best Hinv Hnth.
+    - cbn. rewrite Nat.add_0_r. exact Hinv.
+    - cbn [length seq combine fold_left].
+      replace (k + S (length rest))%nat with (S k + length rest)%nat by lia.
+      apply IH.
+      + destruct Hinv as (Hb & Hlt & Hall & Hfirst).
+        pose proof (Hnth 0%nat) as H0. cbn in H0. rewrite Nat.add_0_r in H0. symmetry in H0.
+        unfold scan_step. cbn [snd].
+        destruct (Z.ltb_spec (key r0) (key (snd best))) as [Hlt'|Hge].
+        * repeat split; cbn [fst snd]; [exact H0|lia| |].
+          -- intros j y Hj Hy. destruct (Nat.eq_dec j k) as [->|Hne].
+             ++ rewrite H0 in Hy. inversion Hy; subst. lia.
+             ++ assert (j < k)%nat by lia. specialize (Hall j y H Hy). lia.
+          -- intros j y Hj Hy. specialize (Hall j y Hj Hy). lia.
+        * repeat split; [exact Hb|lia| |exact Hfirst].
+          intros j y Hj Hy. destruct (Nat.eq_dec j k) as [->|Hne].
+          -- rewrite H0 in Hy. inversion Hy; subst. lia.
+          -- apply (Hall j y); [lia|exact Hy].
+      + intros j. specialize (Hnth (S j)). cbn in Hnth. rewrite Hnth. f_equal. lia.
+  Qed.
+End FirstWins.
+
+Theorem first_extremum_wins {E} (key : E -> Z) (xs : list E) i e :
+  min_element_m Z.ltb key xs = Some (i, e) ->
+  nth_error xs i = Some e /\
+  (forall j y, nth_error xs j = Some y -> (key e <= key y)%Z) /\
+  (forall j y, (j < i)%nat -> nth_error xs j = Some y -> (key e < key y)%Z).
+Proof.
+  unfold min_element_m, indexed. destruct xs as [|x rest]; [cbn; discriminate|].
+  cbn [length seq combine].
+  rewrite (minimum_m_spec Z.ltb (fun p : nat * E => key (snd p)) ltb_trans ltb_negtrans).
+  unfold minimum_spec. cbn [fold1]. intros H. injection H as H.
+  pose proof (scan_inv_fold key (x :: rest) rest 1 (0%nat, x)) as Hinv.
+  change (fold_left (scan_step key) (combine (seq 1 (length rest)) rest) (0%nat, x))
+    with (fold_left (fun best y : nat * E => if (key (snd y) <? key (snd best))%Z then y else best)
+            (combine (seq 1 (length rest)) rest) (0%nat, x)) in Hinv.
+  rewrite H in Hinv. cbn [fst snd] in Hinv.
+  destruct Hinv as (Hb & _ & Hall & Hfirst).
+  - repeat split; cbn [fst snd]; [lia| |].
+    + intros j y Hj Hy. assert (j = 0)%nat by lia. subst j. cbn in Hy. inversion Hy; subst. lia.
+    + intros j y Hj. lia.
+  - intros j. reflexivity.
+  - repeat split; [exact Hb| |exact Hfirst].
+    intros j y Hy. apply (Hall j y); [|exact Hy].
+    assert (j < length (x :: rest))%nat by (apply nth_error_Some; congruence). cbn [length] in *. lia.
+Qed.
+
+(* ------------------------------------------------------------------------- *)
+(** ** the CRC register is the remainder of the GF(2) polynomial long division *)
+
+Lemma map2_app_ {A B C} (f : A -> B -> C) a1 : forall b1 a2 b2,
+  length a1 = length b1 -> map2 f (a1 ++ a2) (b1 ++ b2) = map2 f a1 b1 ++ map2 f a2 b2.
+Proof.
+  induction a1 as [|x a1 IH]; intros [|y b1] a2 b2 H; cbn in *; try lia; [reflexivity|].
+  f_equal. apply IH. lia.
+Qed.
+
+Lemma map2_length_ {A B C} (f : A -> B -> C) a : forall b, length a = length b -> length (map2 f a b) = length a.
+Proof. induction a as [|x a IH]; intros [|y b] H; cbn in *; try lia. rewrite IH; lia. Qed.
+
+Lemma rev_bxor a : forall b, length a = length b -> rev (bxor a b) = bxor (rev a) (rev b).
+Proof.
+  unfold bxor. induction a as [|x a IH]; intros [|y b] H; cbn in *; try lia; [reflexivity|].
+  rewrite IH by lia. rewrite map2_app_ by (rewrite !rev_length; lia). reflexivity.
+Qed.
+
+Lemma bxor_xor_prefix a : forall b, length a = length b -> bxor a b = xor_prefix a b.
+Proof. unfold bxor. induction a as [|x a IH]; intros [|y b] H; cbn in *; try lia; [reflexivity|]. rewrite IH by lia. reflexivity. Qed.
+
+Lemma xor_prefix_length a : forall p, length (xor_prefix a p) = length a.
+Proof. induction a as [|x a IH]; intros [|y p]; cbn; auto. Qed.
+
+Lemma xor_prefix_snoc_false a : forall p, xor_prefix a (p ++ [false]) = xor_prefix a p.
+Proof.
+  induction a as [|x a IH]; intros [|y p]; cbn; try reflexivity.
+  - rewrite xorb_false_r. destruct a; reflexivity.
+  - rewrite IH. reflexivity.
+Qed.
+
+Lemma xor_prefix_assoc X : forall s P, length s = length P ->
+  xor_prefix (xor_prefix X s) P = xor_prefix X (xor_prefix s P).
+Proof.
+  induction X as [|x X IH]; intros [|a s] [|p P] H; cbn in *; try lia; try reflexivity.
+  rewrite IH by lia. rewrite xorb_assoc. reflexivity.
+Qed.
+
+Lemma xor_prefix_zeros R : xor_prefix (repeat false (length R)) R = R.
+Proof. induction R as [|y R IH]; cbn; [reflexivity|]. rewrite IH. destruct y; reflexivity. Qed.
+
+(** one update on MSB-first lists *)
+Definition step_msb (P R : list bool) (d : bool) : list bool :=
+  match R with
+  | [] => []
+  | m :: t => let s := t ++ [false] in if xorb m d then xor_prefix s P else s
+  end.
+
+Lemma step_msb_length P R d : length (step_msb P R d) = length R.
+Proof.
+  destruct R as [|m t]; [reflexivity|]. cbn [step_msb].
+  destruct (xorb m d); rewrite ?xor_prefix_length, app_length; cbn; lia.
+Qed.
+
+Lemma crc_step_rev poly reg d :
+  length poly = length reg -> reg <> [] ->
+  rev (crc_step poly reg d) = step_msb (rev poly) (rev reg) d.
+Proof.
+  intros Hlen Hne. destruct (exists_last Hne) as (q & m & ->).
+  unfold crc_step, cat. rewrite last_last, removelast_last, rev_app_distr. cbn [rev app step_msb].
+  rewrite app_length in Hlen. cbn in Hlen.
+  destruct (xorb m d); [|reflexivity].
+  rewrite rev_bxor by (cbn; lia). cbn [rev].
+  apply bxor_xor_prefix. rewrite app_length, !rev_length. cbn. lia.
+Qed.
+
+Lemma crc_step_length poly reg d :
+  length poly = length reg -> reg <> [] -> length (crc_step poly reg d) = length reg.
+Proof.
+  intros Hlen Hne. rewrite <- (rev_length (crc_step poly reg d)), crc_step_rev by assumption.
+  rewrite step_msb_length, rev_length. reflexivity.
+Qed.
+
+Lemma fold_crc_step_rev poly msg : forall reg,
+  length poly = length reg -> reg <> [] ->
+  rev (fold_left (crc_step poly) msg reg) = fold_left (step_msb (rev poly)) msg (rev reg).
+Proof.
+  induction msg as [|d msg IH]; intros reg Hlen Hne; [reflexivity|].
+  cbn [fold_left]. rewrite IH.
+  - rewrite crc_step_rev by assumption. reflexivity.
+  - rewrite crc_step_length by assumption. exact Hlen.
+  - intros E. apply (f_equal (@length bool)) in E. rewrite crc_step_length in E by assumption.
+    destruct reg; [congruence|discriminate].
+Qed.
+
+Lemma poly_rem_steps P n : length P = n -> (1 <= n)%nat ->
+  forall msg R fuel, length R = n -> (length msg + n <= fuel)%nat ->
+  poly_rem_fuel fuel n P (xor_prefix (msg ++ repeat false n) R) = fold_left (step_msb P) msg R.
+Proof.
+  intros HP Hn. induction msg as [|d msg IH]; intros R fuel HR Hfuel.
+  - cbn [app fold_left]. replace (repeat false n) with (repeat false (length R)) by (rewrite HR; reflexivity).
+    rewrite xor_prefix_zeros.
+    destruct fuel; cbn [poly_rem_fuel]; [reflexivity|].
+    destruct (Nat.leb_spec (length R) n); [reflexivity|lia].
+  - destruct R as [|m t]; [cbn in HR; lia|]. destruct fuel as [|k]; [cbn in Hfuel; lia|].
+    cbn [app xor_prefix poly_rem_fuel fold_left].
+    cbn [length]. rewrite xor_prefix_length, app_length, repeat_length.
+    destruct (Nat.leb_spec (S (length msg + n)) n); [lia|].
+    cbn [length] in HR, Hfuel.
+    rewrite <- (IH (step_msb P (m :: t) d) k); [|rewrite step_msb_length; exact HR|lia].
+    f_equal. cbn [step_msb]. rewrite (xorb_comm m d).
+    rewrite <- (xor_prefix_snoc_false _ t).
+    destruct (xorb d m); [|reflexivity].
+    apply xor_prefix_assoc. rewrite app_length. cbn. lia.
+Qed.
+
+Theorem crc_is_poly_remainder poly init msg :
+  length poly = length init -> init <> [] ->
+  fold_left (crc_step poly) msg init = crc_spec poly init msg.
+Proof.
+  intros Hlen Hne. unfold crc_spec, poly_rem.
+  rewrite xor_prefix_length, app_length, repeat_length, rev_length.
+  rewrite (poly_rem_steps (rev poly) (length poly)).
+  - rewrite <- fold_crc_step_rev by assumption. rewrite rev_involutive. reflexivity.
+  - apply rev_length.
+  - destruct init; [congruence|]. cbn in Hlen. lia.
+  - rewrite rev_length. congruence.
+  - lia.
+Qed.
+(* ------------------------------------------------------------------------- *)
+(** ** batched: the k-th batch is the slice [k*n, (k+1)*n) *)
+
+Lemma skipn_skipn_ {A} (l : list A) b : forall a l', l' = l -> skipn a (skipn b l') = skipn (b + a) l'.
+Proof.
+  intros a l' ->. revert l; induction b as [|b IH]; intros l; [reflexivity|].
+  destruct l as [|x l]; cbn [skipn plus]; [apply skipn_nil|apply IH].
+Qed.
+
+Lemma chunk_count_step len n : (1 <= n)%nat -> (1 <= len)%nat ->
+  ((len + n - 1) / n = S ((len - n + n - 1) / n))%nat.
+Proof.
+  intros Hn Hlen. destruct (Nat.le_gt_cases len n) as [Hle|Hgt].
+  - replace (len - n)%nat with 0%nat by lia. cbn [plus].
+    rewrite (Nat.div_small (n - 1) n) by lia.
+    symmetry. apply (Nat.div_unique (len + n - 1) n 1 (len - 1)); lia.
+  - replace (len + n - 1)%nat with ((len - n + n - 1) + 1 * n)%nat by lia.
+    rewrite Nat.div_add by lia. lia.
+Qed.
+
+Lemma chunks_fuel_index {A} n : (1 <= n)%nat -> forall fuel (l : list A), (length l <= fuel)%nat ->
+  chunks_fuel fuel n l = map (fun k => firstn n (skipn (k * n) l)) (seq 0 ((length l + n - 1) / n)).
+Proof.
+  intros Hn. induction fuel as [|k IH]; intros l Hl.
+  - destruct l; [|cbn in Hl; lia]. clear Hl. cbn [length]. assert (Hs : (0 + n - 1 < n)%nat) by lia. rewrite (Nat.div_small _ _ Hs). reflexivity.
+  - destruct l as [|a l'].
+    + clear Hl. cbn [length chunks_fuel]. assert (Hs : (0 + n - 1 < n)%nat) by lia. rewrite (Nat.div_small _ _ Hs). reflexivity.
+    + cbn [chunks_fuel].
+      assert (HL : (1 <= length (a :: l') <= S k)%nat) by (cbn [length] in *; lia).
+      clear Hl. set (L := a :: l') in *.
+      rewrite chunk_count_step by lia.
+      cbn [seq map]. f_equal.
+      rewrite <- seq_shift, map_map. rewrite IH by (rewrite skipn_length; lia).
+      rewrite skipn_length.
+      apply map_ext. intros j. rewrite (skipn_skipn_ L n (j * n) L eq_refl). reflexivity.
+Qed.
+
+Theorem batched_m_spec input n partial :
+  (1 <= n)%nat -> ((length input mod n = 0)%nat \/ partial = true) ->
+  batched_m input n partial = Some (batched_spec input n).
+Proof.
+  intros Hn Hp. unfold batched_m, batched_spec, batch_args.
+  destruct (Nat.eqb_spec n 0); [lia|].
+  rewrite chunks_fuel_index by lia.
+  destruct Hp as [Hm| ->]; [rewrite Hm; reflexivity|rewrite orb_true_r; reflexivity].
+Qed.
+
+(* ------------------------------------------------------------------------- *)
+(** ** select: the value of the branch whose key equals the argument *)
+
+Theorem select_m_spec {A} arg (branches : list (Z * A)) d :
+  select_m arg branches d =
+  match find (fun kv : Z * A => (fst kv =? arg)%Z) branches with Some kv => snd kv | None => d end.
+Proof.
+  induction branches as [|[k v] r IH]; cbn; [reflexivity|].
+  destruct (k =? arg)%Z; [reflexivity|exact IH].
+Qed.
